@@ -35,6 +35,7 @@ fn nvars() {
 
 #[cfg_attr(kani, kani::proof)]
 #[cfg_attr(kani, kani::stub(alloc::fmt::format, crate::util::fmt_stub))]
+#[cfg_attr(kani, kani::stub(core::fmt::write, crate::util::fmt_write_stub))]
 #[cfg_attr(kani, kani::unwind(5))]
 pub fn c16_q_buffered_nvars() {
     nvars();
